@@ -50,6 +50,13 @@ func NewCSVWriter(writer *csv.Writer) func(ro.Observable[[]string]) ro.Observabl
 					func(ctx context.Context) {
 						writer.Flush()
 						destination.NextWithContext(ctx, count)
+
+						// the rows are buffered: a failure of the underlying writer surfaces at Flush
+						if err := writer.Error(); err != nil {
+							destination.ErrorWithContext(ctx, err)
+							return
+						}
+
 						destination.CompleteWithContext(ctx)
 					},
 				),
